@@ -178,6 +178,7 @@ def run(ck, F, tier):
                 out += closures_of(x)
         return out
     seen_cl = set()
+    sources = []
     from ..transformer import StepReading, compare, Grid
     from ..symx import NotEvaluable
     from itertools import product
@@ -203,6 +204,7 @@ def run(ck, F, tier):
                         try:
                             # the predicate applied to the element the upstream stages produce for row r
                             preds.append((kind, self_.apply(c, [self_.elem_value(up, "r")]), c[1].get("sp")))
+                            sources.append(up)
                         except Unsupported:
                             pass
             return v
@@ -241,6 +243,14 @@ def run(ck, F, tier):
             okp, bad = False, "not evaluable: %s" % ex
         ck.inst("Q2", "select_rows:weight-filter#%d" % (i + 1), okp, sp or b.span,
                 "row r stays a candidate exactly when row_weight(h, r) < wr (strict)%s" % ("" if okp else " ; differs at (weight, wr, kept) = %r" % (bad,)))
+    # ... and the candidates are drawn from every row 0..num_rows (only element-wise stages between the range and the filter)
+    def whole_rows(d):
+        while isinstance(d, tuple) and d and d[0] in ("map", "iterdesc"):
+            d = d[1]
+        unp = lambda x: x[1] if isinstance(x, tuple) and len(x) == 2 and x[0] == "P" else x
+        return isinstance(d, tuple) and d and d[0] == "range" and unp(d[1]) == num(0) and unp(d[2]) == app(SM + "num_rows", var("self.h")) and not d[3]
+    for i, up_ in enumerate(sources):
+        ck.inst("Q2", "select_rows:candidates-all-rows#%d" % (i + 1), whole_rows(up_), b.span, "the rows offered to the weight filter are 0..num_rows(h): %r" % (up_[:4] if isinstance(up_, tuple) else up_,))
     ck.inst("Q2", "select_rows:both-policies-filter", len(preds) == 2 and nread == 2, b.span,
             "both fill policies filter the candidate rows by weight (%d filter predicates read)" % len(preds))
     cm = by_name(calls, "choose_multiple")
